@@ -188,4 +188,23 @@ def build():
     ]
     b = body("pv::synth::filter_next", 2, tys, blocks)
     out[b.key] = b
+    # SkipWhile::next(&mut inner, &mut pred, &mut done):
+    #   loop { let x = inner.next()?; if *done { return Some(x) } if pred(&x) { continue } *done = true; return Some(x) }
+    # locals: 0 ret, 1 &mut I, 2 &mut P, 3 &mut bool, 4 Option<T>, 5 discr, 6 T, 7 &T, 8 (&T,), 9 bool, 10 bool
+    tys = ["core::option::Option<T>", "&mut I", "&mut P", "&mut bool", "core::option::Option<T>", "isize", "T", "&T", "(&T,)", "bool", "bool"]
+    DEREF3 = {"l": 3, "p": [{"k": "deref"}]}
+    blocks = [
+        block([], goto(1)),
+        block([], call(NEXT, [cp(1)], 4, 2)),
+        block([assign(5, {"k": "discriminant", "place": P(4), "ty": tys[4], "variants": OPT_VARIANTS})], {"k": "switch", "discr": mv(5), "ty": "isize", "targets": [[0, 7], [1, 3]], "otherwise": 9, "span": SPAN}),
+        block([assign(6, use(some_payload(4, "T"))), assign(10, use({"k": "copy", "place": DEREF3}))], {"k": "switch", "discr": mv(10), "ty": "bool", "targets": [[0, 4]], "otherwise": 6, "span": SPAN}),
+        block([assign(7, {"k": "ref", "mut": False, "place": P(6)}), assign(8, tup(cp(7)))], call("core::ops::function::FnMut::call_mut", [cp(2), mv(8)], 9, 5)),
+        block([], {"k": "switch", "discr": mv(9), "ty": "bool", "targets": [[0, 8]], "otherwise": 1, "span": SPAN}),
+        block([assign(0, {"k": "aggregate", "agg": "adt", "adt": OPT, "adt_full": tys[0], "variant": 1, "variant_name": "Some", "discr": 1, "is_enum": True, "active_field": None, "ops": [mv(6)]})], {"k": "return"}),
+        block([assign(0, {"k": "aggregate", "agg": "adt", "adt": OPT, "adt_full": tys[0], "variant": 0, "variant_name": "None", "discr": 0, "is_enum": True, "active_field": None, "ops": []})], {"k": "return"}),
+        block([{"k": "assign", "place": DEREF3, "rv": use({"k": "int", "v": 1, "ty": "bool"}), "span": SPAN}], goto(6)),
+        block([], {"k": "unreachable"}),
+    ]
+    b = body("pv::synth::skip_while_next", 3, tys, blocks)
+    out[b.key] = b
     return out
